@@ -3,10 +3,10 @@ package main
 import "fmt"
 
 // number of templates in harness/commonmark/h_tl.go
-const nTL = 73
+const nTL = 83
 
 // quick-tier subset of TL (at most two holes, cheap)
-var tlQuick = []int{0, 1, 2, 3, 5, 6, 7, 8, 9, 10, 11, 12, 13, 14, 15, 16, 17, 18, 19, 20, 22, 23, 24, 25, 27, 28, 29, 30, 32, 33, 34, 35, 39, 40, 44, 48, 49, 53, 54, 59, 60, 61, 62, 63, 64, 65, 66, 67, 68, 69, 70, 71, 72}
+var tlQuick = []int{0, 1, 2, 3, 5, 6, 7, 8, 9, 10, 11, 12, 13, 14, 15, 16, 17, 18, 19, 20, 22, 23, 24, 25, 27, 28, 29, 30, 32, 33, 34, 35, 39, 40, 44, 48, 49, 53, 54, 59, 60, 61, 62, 63, 64, 65, 66, 67, 68, 69, 70, 71, 72, 73, 74, 75, 76, 77, 78, 79, 80, 81, 82}
 
 func fJobs(h string, quickN []int, thoroughN []int, second int64, clausePanic string) []JobSpec {
 	var js []JobSpec
@@ -37,13 +37,17 @@ func tlJobs(h string) []JobSpec {
 
 // multi-line members of TL that are also run with CRLF (quick) and bare-CR (thorough)
 // line endings (template kinds 6 and 7 of treeInput)
-var tlMultiLine = []int{9, 10, 13, 14, 20, 29, 33, 34, 39, 40, 44, 53, 59, 60, 61, 62, 63, 64, 68, 70}
+var tlMultiLine = []int{9, 10, 13, 14, 20, 29, 33, 34, 39, 40, 44, 53, 59, 60, 61, 62, 63, 64, 68, 70, 73, 75, 81}
 
 func tlEOLJobs(h string) []JobSpec {
 	var js []JobSpec
 	for _, i := range tlMultiLine {
 		js = append(js, JobSpec{Pkg: pkgCM, Harness: h, Params: []int64{6, int64(i)}, Bound: fmt.Sprintf("TL[%d] with CRLF line endings", i), Tier: "quick"})
-		js = append(js, JobSpec{Pkg: pkgCM, Harness: h, Params: []int64{7, int64(i)}, Bound: fmt.Sprintf("TL[%d] with bare-CR line endings", i), Tier: "thorough"})
+		crTier := "thorough"
+		if i == 20 || i == 29 || i == 53 || i == 81 {
+			crTier = "quick"
+		}
+		js = append(js, JobSpec{Pkg: pkgCM, Harness: h, Params: []int64{7, int64(i)}, Bound: fmt.Sprintf("TL[%d] with bare-CR line endings", i), Tier: crTier})
 	}
 	return js
 }
@@ -94,7 +98,10 @@ func propSpecs() map[string]*PropSpec {
 		c01.Jobs = append(c01.Jobs, JobSpec{Pkg: pkgCM, Harness: "H_C01_F", Params: []int64{n, 2}, Bound: fmt.Sprintf("F(%d) via streaming NextBlock under every read schedule (chunk sizes, empty reads, EOF with data)", n), Tier: "quick"})
 	}
 	c01.Jobs = append(c01.Jobs, JobSpec{Pkg: pkgCM, Harness: "H_C01_T", Params: []int64{10, 3}, Bound: "C01 template 10 (byte, EOL, EOL, byte) via streaming NextBlock, input cut into two reads at every position", Tier: "quick"})
-	for _, i := range []int64{1, 11} {
+	for _, i := range []int64{12, 13, 14} {
+		c01.Jobs = append(c01.Jobs, JobSpec{Pkg: pkgCM, Harness: "H_C01_T", Params: []int64{i, 0}, Bound: fmt.Sprintf("C01 template %d (CRLF / bare-CR document) via in-memory Parse", i), Tier: "quick"})
+	}
+	for _, i := range []int64{1, 11, 12, 13} {
 		c01.Jobs = append(c01.Jobs, JobSpec{Pkg: pkgCM, Harness: "H_C01_T", Params: []int64{i, 3}, Bound: fmt.Sprintf("C01 template %d via streaming NextBlock, input cut into two reads at every position", i), Tier: "quick"})
 	}
 	c01.Jobs = append(c01.Jobs, JobSpec{Pkg: pkgCM, Harness: "H_C01_F", Params: []int64{3, 2}, Bound: "F(3) via streaming NextBlock under every read schedule", Tier: "thorough"})
@@ -157,6 +164,12 @@ func propSpecs() map[string]*PropSpec {
 		}
 		c04.Jobs = append(c04.Jobs, JobSpec{Pkg: pkgCM, Harness: "H_C04", Params: []int64{2, i}, Bound: fmt.Sprintf("C04 template %d (unterminated constructs at end of input, nesting depth 8)", i), Tier: t, Panic: "C04.no-panic", Budget: "C04.terminates"})
 	}
+	for _, kn := range [][2]int64{{3, 999}, {3, 1000}, {4, 999}, {4, 1000}, {5, 40}, {6, 64}, {7, 8}} {
+		c04.Jobs = append(c04.Jobs, JobSpec{Pkg: pkgCM, Harness: "H_C04", Params: kn[:], Bound: fmt.Sprintf("C04 size-boundary input kind %d with n=%d (label limit 999, nesting, local part, digits)", kn[0], kn[1]), Tier: "quick", Panic: "C04.no-panic", Budget: "C04.terminates"})
+	}
+	for _, kn := range [][2]int64{{3, 998}, {3, 1001}, {3, 3000}, {4, 998}, {4, 1001}, {5, 200}, {6, 63}, {6, 65}, {7, 7}} {
+		c04.Jobs = append(c04.Jobs, JobSpec{Pkg: pkgCM, Harness: "H_C04", Params: kn[:], Bound: fmt.Sprintf("C04 size-boundary input kind %d with n=%d", kn[0], kn[1]), Tier: "thorough", Panic: "C04.no-panic", Budget: "C04.terminates"})
+	}
 	for n := int64(1); n <= 3; n++ {
 		c04.Jobs = append(c04.Jobs, JobSpec{Pkg: pkgFmt, Harness: "H_C04_format", Params: []int64{n, 0}, Bound: fmt.Sprintf("format.Format on F(%d)", n), Tier: "quick", Panic: "C04.no-panic", Budget: "C04.terminates"})
 	}
@@ -174,7 +187,7 @@ func propSpecs() map[string]*PropSpec {
 	}
 	c07.Jobs = append(c07.Jobs, JobSpec{Pkg: pkgCM, Harness: "H_C07", Params: []int64{4, 0}, Bound: "F(4)", Tier: "thorough"})
 	heavyAttr := map[int]bool{5: true, 8: true, 10: true}
-	for i := 0; i < 20; i++ {
+	for i := 0; i < 24; i++ {
 		t := "quick"
 		if heavyAttr[i] {
 			t = "thorough"
@@ -200,7 +213,7 @@ func propSpecs() map[string]*PropSpec {
 		}
 		c10.Jobs = append(c10.Jobs, JobSpec{Pkg: pkgCM, Harness: "H_C10", Params: []int64{3, f}, Bound: fmt.Sprintf("F(3), FilterTag=%s", fnames[f]), Tier: t})
 	}
-	for i := 0; i < 20; i++ {
+	for i := 0; i < 24; i++ {
 		t := "quick"
 		if heavyAttr[i] {
 			t = "thorough"
@@ -212,6 +225,8 @@ func propSpecs() map[string]*PropSpec {
 			c10.Jobs = append(c10.Jobs, JobSpec{Pkg: pkgCM, Harness: "H_C10", Params: []int64{2000 + i, f}, Bound: fmt.Sprintf("raw-HTML template %d, FilterTag=%s", i, fnames[f]), Tier: "quick"})
 		}
 	}
+	c10.Jobs = append(c10.Jobs, JobSpec{Pkg: pkgCM, Harness: "H_C10_join", Params: []int64{100, 0}, Bound: "block-join rule on 100 paragraphs (6.4 KB of output, crosses 4 KiB)", Tier: "quick"})
+	c10.Jobs = append(c10.Jobs, JobSpec{Pkg: pkgCM, Harness: "H_C10_join", Params: []int64{300, 0}, Bound: "block-join rule on 300 paragraphs (19 KB of output)", Tier: "thorough"})
 	c10.Jobs = append(c10.Jobs, JobSpec{Pkg: pkgCM, Harness: "H_C10", Params: []int64{4, 0}, Bound: "F(4), FilterTag=nil", Tier: "thorough"})
 	add(c10)
 
@@ -219,7 +234,10 @@ func propSpecs() map[string]*PropSpec {
 	c17 := &PropSpec{ID: "C17", Level: "model_checking", Assumptions: append([]string{"HTML tokenization per the WHATWG data, tag-open, end-tag-open, tag-name, attribute, markup-declaration-open, comment and bogus-comment states; RCDATA/RAWTEXT states are never entered because every raw-text element is rejected by the predicates considered"}, commonAssumptions...), QuickSec: 170, ThoroughSec: 1500,
 		Explanation: "bounded symbolic execution of Parse + Render with and without a predicate on HTML templates with symbolic holes; the filtered output (symbolic bytes) is aligned with the unfiltered one (only '<' -> '&lt;') and tokenised by a WHATWG-state tokenizer that must never emit a start tag the predicate rejects"}
 	pnames := []string{"GFM", "reject-all", "reject-none", "{xmp}", "{x,xmp,script}"}
-	for t := int64(0); t < 22; t++ {
+	for i := int64(0); i < 9; i++ {
+		c17.Jobs = append(c17.Jobs, JobSpec{Pkg: pkgCM, Harness: "H_C17_gfm", Params: []int64{i, 0}, Bound: fmt.Sprintf("GFM predicate on raw-text element name %d of 9 in every letter case", i), Tier: "quick"})
+	}
+	for t := int64(0); t < 24; t++ {
 		tier := "quick"
 		if t >= 12 && t <= 16 {
 			tier = "thorough"
@@ -299,7 +317,7 @@ func propSpecs() map[string]*PropSpec {
 	cm(c14, "H_C14_pad", 0, 1, "padding clause, F(1) x 5 pads", "quick")
 	cm(c14, "H_C14_pad", 0, 2, "padding clause, F(2) x 5 pads", "quick")
 	cm(c14, "H_C14_pad", 0, 3, "padding clause, F(3) x 5 pads", "thorough")
-	for i := int64(0); i < 12; i++ {
+	for i := int64(0); i < 14; i++ {
 		cm(c14, "H_C14_final", 4, i, fmt.Sprintf("final-newline clause, C14 template %d", i), "quick")
 		cm(c14, "H_C14_eol", 4, i, fmt.Sprintf("line-ending clause, C14 template %d", i), "quick")
 	}
@@ -320,10 +338,17 @@ func propSpecs() map[string]*PropSpec {
 	for n := int64(1); n <= 3; n++ {
 		cm(c09, "H_C09_quote", 0, n, fmt.Sprintf("quote clause, tab-free F(%d)", n), "quick")
 	}
+	for n := int64(1); n <= 3; n++ {
+		cm(c09, "H_C09_quote_bare", 0, n, fmt.Sprintf("quote clause with the bare marker '>', tab-free F(%d) without a line starting with a space", n), "quick")
+	}
+	for _, i := range []int64{0, 2, 9, 14, 20, 29, 33, 53} {
+		cm(c09, "H_C09_quote_bare", 1, i, fmt.Sprintf("quote clause with the bare marker '>', TL[%d]", i), "quick")
+	}
+	cm(c09, "H_C09_quote_bare", 0, 4, "quote clause with the bare marker '>', F(4)", "thorough")
 	cm(c09, "H_C09_list", 0, 1, "list clause, F(1) x 6 markers x 4 widths", "quick")
 	cm(c09, "H_C09_list", 0, 2, "list clause, F(2) x 6 markers x 4 widths", "quick")
 	cm(c09, "H_C09_list", 0, 3, "list clause, F(3) x 6 markers x 4 widths", "thorough")
-	for _, i := range []int64{9, 13, 14, 20, 29, 33, 34, 39, 40, 51, 53} {
+	for _, i := range []int64{9, 13, 14, 20, 29, 33, 34, 39, 40, 51, 53, 59, 61, 73, 76, 82} {
 		cm(c09, "H_C09_quote", 1, i, fmt.Sprintf("quote clause, multi-line template TL[%d]", i), "quick")
 	}
 	for _, i := range []int64{9, 20, 33, 39} {
@@ -385,6 +410,10 @@ func propSpecs() map[string]*PropSpec {
 		cm(c18, "H_C18", 0, d, fmt.Sprintf("real tree of document %d, all callback policies", d), "quick")
 		cm(c18, "H_C18", 1, d, fmt.Sprintf("virtual root over the root blocks of document %d (custom ChildCount/Child), all policies", d), "quick")
 	}
+	for _, d := range []int64{0, 2} {
+		cm(c18, "H_C18", 5, d, fmt.Sprintf("real tree of document %d with only ChildCount user-supplied (hides children of emphasis/links), all policies", d), "quick")
+		cm(c18, "H_C18", 6, d, fmt.Sprintf("real tree of document %d with only Child user-supplied (reversed order), all policies", d), "quick")
+	}
 	cm(c18, "H_C18", 2, 1, "virtual trees of depth 1, all shapes and policies", "quick")
 	cm(c18, "H_C18", 2, 2, "virtual trees of depth 2 (<= 9 nodes), all shapes and policies", "quick")
 	cm(c18, "H_C18", 2, 53, "virtual trees of depth 3 with <= 5 nodes, all shapes and policies", "quick")
@@ -431,7 +460,7 @@ func propSpecs() map[string]*PropSpec {
 	for _, i := range []int64{5, 6, 8, 10, 18, 22, 26, 29, 33, 40, 48} {
 		cm(c19, "H_C19", 1, i, fmt.Sprintf("Render/Walk on frozen trees of TL[%d]", i), "quick")
 	}
-	for _, i := range []int64{2, 9, 14, 15} {
+	for _, i := range []int64{0, 1, 2, 5, 9, 14, 15, 19} {
 		cm(c19, "H_C19", 2, i, fmt.Sprintf("Render/Walk on frozen trees of attribute template %d", i), "quick")
 	}
 	cm(c19, "H_C19", 0, 4, "Render/Walk on frozen trees of F(4)", "thorough")
@@ -454,6 +483,14 @@ func propSpecs() map[string]*PropSpec {
 		fm(c20, "H_C20_marker", k, 0, fmt.Sprintf("ordered item with a %d-digit number + second paragraph", k), "thorough")
 	}
 	fm(c20, "H_C20_marker", 9, 3, "ordered item with a 9-digit number + block quote", "thorough")
+	for _, nn := range [][2]int64{{0, 3}, {1, 4}, {2, 5}, {3, 5}} {
+		fm(c20, "H_C20_fence", nn[0], nn[1], fmt.Sprintf("fenced code whose content lines are %d and %d free bytes over {backtick, space, tab, a}", nn[0], nn[1]), "quick")
+	}
+	fm(c20, "H_C20_fence", 5, 6, "fenced code whose content lines are 5 and 6 free bytes over {backtick, space, tab, a}", "thorough")
+	for cont := int64(0); cont <= 4; cont++ {
+		fm(c20, "H_C20_esc", 3, cont, fmt.Sprintf("3 escaped punctuation bytes (free) in context %d (top level / bullet / ordered / quote / continuation line)", cont), "quick")
+		fm(c20, "H_C20_esc", 4, cont, fmt.Sprintf("4 escaped punctuation bytes in context %d", cont), "thorough")
+	}
 	fm(c20, "H_C20_canon", 1, 0, "canonical documents of <= 1 node, reduced menus", "quick")
 	fm(c20, "H_C20_canon", 2, 0, "canonical documents of <= 2 nodes, reduced menus", "quick")
 	fm(c20, "H_C20_canon", 2, 2, "canonical documents of <= 2 nodes, full menus", "quick")
